@@ -2,7 +2,7 @@
     Property theorems only. *)
 From Coq Require Import Reals List ZArith.
 From Interval Require Import Real.Xreal Real.Xreal_derive Eval.Prog Eval.Tree Eval.Eval.
-From FeosVerif Require Import ProgSem ProgSemBig AD Virial VirialProg BoxBig VirialBox.
+From FeosVerif Require Import ProgSem ProgSemBig AD Virial VirialProg VirialProg3 BoxBig VirialBox VirialBox3.
 Import ListNotations.
 Local Open Scope R_scope.
 
@@ -49,3 +49,31 @@ Theorem C13_second_virial_limit_of_program : forall (P : list term) (T eps : Z *
       Rabs ((rho * vp_g1 P n a e rho - vp_g P a e rho) / rho ^ 2 - vp_c P n a e / 2) < x.
 Proof. exact virial_from_obligations. Qed.
 Print Assumptions C13_second_virial_limit_of_program.
+
+(** Third virial coefficient.  For g, g1 = g', g2 = g'' on a neighbourhood of 0 with g(0) = g'(0) = 0 and g2 derivable at 0
+    with derivative k: with B = g''(0)/2 (the limit of (Z-1)/rho above), the difference quotient ((Z-1)/rho - B)/rho — the
+    density derivative of (Z-1)/rho at zero density — tends to k/3, the number the third-virial-coefficient function returns
+    (a third of the third density derivative of g at rho = 0). *)
+Theorem C13_third_virial_is_limit : forall (g g1 g2 : R -> R) (k d0 : R), 0 < d0 ->
+  (forall x, Rabs x < d0 -> derivable_pt_lim g x (g1 x)) ->
+  (forall x, Rabs x < d0 -> derivable_pt_lim g1 x (g2 x)) ->
+  derivable_pt_lim g2 0 k -> g 0 = 0 -> g1 0 = 0 ->
+  forall eps, 0 < eps -> exists delta, 0 < delta /\
+    forall rho, rho <> 0 -> Rabs rho < delta ->
+      Rabs (((rho * g1 rho - g rho) / rho ^ 2 - g2 0 / 2) / rho - k / 3) < eps.
+Proof. exact virial_limit3. Qed.
+Print Assumptions C13_third_virial_is_limit.
+
+(** ... instantiated on a regenerated zero-density program by computation: if [virial_obligations3] evaluates to true
+    (scopedness of P, D1, D2; interval evaluations of the first AND second derivative programs over the density box
+    [-eps, eps]; the third derivative program defined at rho = 0; g(0) = g'(0) = 0), the limit holds for the function the
+    program denotes. *)
+Theorem C13_third_virial_limit_of_program : forall (P : list term) (T eps : Z * Z) (cs : list (Z * Z)) (prec : Z),
+  virial_obligations3 P T eps cs prec = true ->
+  let n := (2 + length cs)%nat in
+  let a := inputs_R (T :: (0, 0)%Z :: cs) in let e := inputs_R (unitZ n 1) in
+  forall x, 0 < x -> exists delta, 0 < delta /\
+    forall rho, rho <> 0 -> Rabs rho < delta ->
+      Rabs (((rho * vp_g1 P n a e rho - vp_g P a e rho) / rho ^ 2 - vp_g2 P n a e 0 / 2) / rho - vp_k P n a e / 3) < x.
+Proof. exact virial3_from_obligations. Qed.
+Print Assumptions C13_third_virial_limit_of_program.
